@@ -2,7 +2,7 @@
 (* GENERATED from harness/kinds_C10.py (python harness/kinds_C10.py); the check refuses to run if they differ. *)
 EXTENDS Serialise
 
-Kinds == {"seq_old", "seq_new", "aln", "array_aln", "coll", "new_coll", "tree", "table", "dists", "dict_array", "indel_map", "feature_map", "aligned", "annotation_db", "lf", "lf_multilocus", "lf_rate_free", "lf_rate_gamma", "lf_site_hmm", "annotation_db_gff", "annotation_db_gb", "seqview", "lf_gn", "ns_submodel", "new_alphabet_char", "new_alphabet_kmer", "new_alphabet_codon", "hypothesis_result", "tabular_result", "submodel", "codon_model", "moltype", "alphabet", "alphabet_char", "submodel_user", "not_completed", "model_result", "generic_result"}
+Kinds == {"seq_old", "seq_new", "aln", "array_aln", "coll", "new_coll", "tree", "tree_names", "table", "dists", "dict_array", "indel_map", "feature_map", "aligned", "annotation_db", "lf", "lf_multilocus", "lf_rate_free", "lf_rate_gamma", "lf_site_hmm", "annotation_db_gff", "annotation_db_gb", "seqview", "lf_gn", "ns_submodel", "new_alphabet_char", "new_alphabet_kmer", "new_alphabet_codon", "hypothesis_result", "tabular_result", "submodel", "codon_model", "moltype", "alphabet", "alphabet_char", "submodel_user", "not_completed", "model_result", "generic_result"}
 KindOpsDef == [k \in Kinds |-> CASE k = "seq_old" -> {"add_feature", "rc", "slice_mid", "slice_neg", "stride2", "to_rna"}
                                   [] k = "seq_new" -> {"add_feature", "rc", "slice_mid", "slice_neg", "stride2", "to_rna"}
                                   [] k = "aln" -> {"modified_termini", "omit_gap_pos", "rc", "slice_cols", "take_positions", "take_seqs", "to_rna"}
@@ -10,6 +10,7 @@ KindOpsDef == [k \in Kinds |-> CASE k = "seq_old" -> {"add_feature", "rc", "slic
                                   [] k = "coll" -> {"rc", "rename", "take_seqs", "to_rna"}
                                   [] k = "new_coll" -> {"rc", "rename", "take_seqs", "to_rna"}
                                   [] k = "tree" -> {"bifurcating", "rooted_at", "sorted", "sub_tree"}
+                                  [] k = "tree_names" -> {"clade_blank", "clade_blank2", "clade_quotes", "sorted", "tip_digits", "tip_odd"}
                                   [] k = "table" -> {"filtered", "get_columns", "sorted", "transposed", "with_new_column"}
                                   [] k = "dists" -> {"drop", "set_cells", "take_dists"}
                                   [] k = "dict_array" -> {"to_normalized"}
